@@ -189,7 +189,8 @@ class DensityMatrix(StateRepresentationBase):
                     f'measurement_determinism parameter must be "probabilistic", 0, or 1'
                 )
 
-            m, norm = projectors[outcome], probs[outcome]
+            # conditional probability of the outcome: a state made sub-normalised by photon loss keeps its weight
+            m, norm = projectors[outcome], probs[outcome] / np.sum(probs)
 
             # this assumes that the projector, m, has the properties: m = sqrt(m) and m = m.dag()
             self._data = (m @ self._data @ np.transpose(np.conjugate(m))) / norm
